@@ -21,7 +21,7 @@ HashSize(alg) == CASE alg = 0 - 16 -> 32 [] alg = 0 - 43 -> 48 [] alg = 0 - 44 -
 HashAlgs == {0 - 16, 0 - 43, 0 - 44, 99, 0 - 7}
 HashLens(alg) == IF HashSize(alg) = 0 THEN {0, 5} ELSE {0, HashSize(alg) - 1, HashSize(alg), HashSize(alg) + 1}
 Absent == [t |-> "absent"]
-Pcts == { Absent, GoInt("uint16", 50), GoInt("int", 0), GoStr(<<97, 47, 98>>), GoNeg("int64", 0), GoBytes(<<1>>), GoStr(<<>>) }
+Pcts == { Absent, GoInt("uint16", 50), GoInt("int", 0), GoStr(<<97, 47, 98>>), GoNeg("int64", 0), GoBytes(<<1>>), GoStr(<<>>), [t |-> "simple", v |-> 16] }
 Locs == { <<>>, <<104, 116, 116, 112, 58, 47, 47, 120>> }
 
 \* base header entries the caller may already have put in either bucket
@@ -38,8 +38,8 @@ ProducerProg(P, U, rawP, rawU, hp) ==
      [op |-> "verifyhashenv", obj |-> "r", buf |-> "b", verifiers |-> <<Vf>>] >>
 
 \* consumer side: governed labels in a validly signed message
-V258 == { AlgT(15), GoNeg("int64", 42), GoInt("int64", 99), GoStr(<<83>>), GoBytes(<<1>>) }
-V259 == { GoInt("int64", 50), GoStr(<<97, 47, 98>>), GoNeg("int64", 0), GoBytes(<<1>>) }
+V258 == { AlgT(15), GoNeg("int64", 42), GoInt("int64", 99), GoStr(<<83>>), GoBytes(<<1>>), [t |-> "simple", v |-> 16] }
+V259 == { GoInt("int64", 50), GoStr(<<97, 47, 98>>), GoNeg("int64", 0), GoBytes(<<1>>), [t |-> "simple", v |-> 16], [t |-> "bool", v |-> TRUE] }
 V260 == { GoStr(<<122>>), GoInt("int64", 1) }
 Opt(S) == S \cup {Absent}
 Entry(n, v) == IF v.t = "absent" THEN <<>> ELSE <<<<L("int64", n), v>>>>
